@@ -42,6 +42,19 @@ void add_extras(Value<Char_T> &value, const Units &units) {
         return;
     }
     value[tv::Key<Char_T>("q0").v()] = String<Char_T>{};
+    {   // an object of arrays with long keys, an array of unprintable items, records to group: for loops that leave keys behind
+        Value<Char_T> &oo = value[tv::Key<Char_T>("oo").v()];
+        oo[tv::Key<Char_T>("zeta-key-number-one").v()] += 7;
+        oo[tv::Key<Char_T>("alpha-key-number-two").v()] += 8;
+        Value<Char_T> &aa = value[tv::Key<Char_T>("aa").v()];
+        aa[0] += 1;
+        aa[1] += 2;
+        Value<Char_T> &rr = value[tv::Key<Char_T>("rr").v()];
+        rr[0][tv::Key<Char_T>("kind").v()] = tv::str<Char_T>("a-rather-long-group-name");
+        rr[0][tv::Key<Char_T>("n").v()] += 1;
+        rr[1][tv::Key<Char_T>("kind").v()] = tv::str<Char_T>("another-long-group-name");
+        rr[1][tv::Key<Char_T>("n").v()] += 2;
+    }
     value[tv::Key<Char_T>("sh").v()] = tv::str<Char_T>("ab");
     {
         Units lg = {'a', 'b', 0, 0, 0, 0, 0, 0};
@@ -134,7 +147,7 @@ struct Case {
 };
 
 // expressions that compare a literal / a short or storage-less string with a value that is longer, as the last thing in the template
-Units aimed_template(jm::Entropy &e, std::string *ops) {
+Units aimed_template(jm::Entropy &e, std::string *ops, int gen2 = 0) {
     static const char *t[] = {"{math:abc=={var:T}}", "{math:abc!={var:T}}", "x{if case=\"abc=={var:T}\" true=\"y\"}", "<if case=\"abc!={var:T}\">y</if>",
                               "{math:{var:q0}=={var:s}}", "{if case=\"{var:q0}!={var:ns}\" true=\"1\" false=\"0\"}", "{math:{var:sh}=={var:lg}}",
                               "<if case=\"{var:sh}!={var:lg}\">y<else />n</if>", "{math:{var:q0}=={var:T}}abc", "{math:(abc=={var:T})}", "{math:1+(abc=={var:T})}",
@@ -146,10 +159,17 @@ Units aimed_template(jm::Entropy &e, std::string *ops) {
                               "<loop set=\"o\" value=\"i\"><loop value=\"i\" set=\"i\">{var:i}</loop></loop>",
                               "<loop value=\"k\" set=\"k1\" sort=\"ascend\">{var:k}</loop><loop value=\"k\" set=\"k2\">{var:k}{var:k[0]}</loop>",
                               "<loop value=\"s\" sort=\"ascend\" set=\"s\">{raw:s}</loop>"};
-    const unsigned     k  = e.below(18);
+    // gen2 >= 2: sequences of loops that leave something behind at a nesting level - a sorted / grouped loop over an object, a loop nested
+    // deeper, then a sibling loop over unprintable items (which falls back to "the key", if one is left at its level)
+    static const char *t2[] = {
+        "<loop set=\"oo\" value=\"a\" sort=\"ascend\"><loop set=\"a\" value=\"n\">{var:n}</loop>;</loop><loop set=\"aa\" value=\"b\">[{var:b}]</loop>",
+        "<loop set=\"rr\" value=\"g\" group=\"kind\"><loop set=\"g\" value=\"m\">-</loop></loop><loop set=\"aa\" value=\"b\">[{var:b}]</loop>",
+        "<loop set=\"oo\" value=\"a\" sort=\"descend\">{var:a}<loop set=\"a\" value=\"n\"><loop set=\"aa\" value=\"c\">{var:c}</loop></loop></loop><loop set=\"rr\" value=\"b\">{var:b}{raw:b}</loop>",
+        "<loop set=\"oo\" value=\"a\"><loop set=\"oo\" value=\"b\" sort=\"ascend\">{var:b}</loop></loop><loop set=\"aa\" value=\"a\">{var:a}<loop set=\"aa\" value=\"b\">{var:b}</loop></loop>"};
+    const unsigned     k  = e.below(gen2 >= 2 ? 22 : 18);
     if (ops) *ops += "aimed-comparison=" + std::to_string(k) + ";";
     Units u;
-    for (const char *p = t[k]; *p; ++p) {
+    for (const char *p = (k < 18 ? t[k] : t2[k - 18]); *p; ++p) {
         u.push_back((unsigned char)*p);
     }
     return u;
@@ -305,7 +325,7 @@ Units make_template(const Case &c, std::string *ops = nullptr) {
         if (c.gen2 >= 2 && c.bytes.size() > 1 && (c.bytes[c.bytes.size() - 2] & 1) != 0) {
             return expression_soup(e, ops);
         }
-        return aimed_template(e, ops);
+        return aimed_template(e, ops, c.gen2);
     }
     if (c.gen2 >= 2 && !c.bytes.empty() && (c.bytes.back() % 12) == 1) {
         return expression_soup(e, ops);
